@@ -37,6 +37,14 @@ def table(pid, module, pkg, what, ref):
 CHECKS = {
  'C02': table('C02', 'Wire', 'wirefam', 'JSON-RPC conformance and survival on arbitrary inbound records: the verdict function of spec/Wire.tla (a transcription of the property statement, not of the Go code) is evaluated by TLC over all 15400 combinations of per-field variants; each cell is sent as a single object, inside arrays and in random batches to a real Server (AllowPush off and on) inside a synctest bubble; handler invocations and output records at quiescence are compared with the allowed outcome set, outputs are validated by an independent JSON-RPC response validator, and a liveness probe follows. Seeded mutations beyond the bound use the survival / valid-output oracle.', 'DESIGN.md §4 C02'),
  'C14': table('C14', 'Errors', 'errfam', 'Error classification from handler to caller: ErrorCode / ToWire / FromWire of spec/Errors.tla are evaluated by TLC over every error tree up to the bound (and the round-trip theorem is checked on the reference itself); each tree is built from the real constructors, returned by a real handler and observed through Call, CallResult, Batch and a server Callback: equal ErrorCode on both sides, exact context sentinels, *Error code/message/data unchanged (JSON-equal); all listed and seeded int32 codes; WithData receivers; unmarshalable results become error responses.', 'DESIGN.md §4 C14'),
+ 'C15': table('C15', 'HandlerAdapt', 'adaptfam', 'handler.Check/New/Wrap: the signature grammar (256 shapes; function types synthesised with reflect.FuncOf/MakeFunc) and the wrap decision tables of spec/HandlerAdapt.tla (struct-like parameter variants x SetStrict x AllowArray x params shapes; non-struct kinds) are evaluated by TLC and replayed: accepted / rejected, FuncInfo fields, called exactly once / not called with InvalidParams, never a panic, results and errors returned unchanged; the argument value is compared with what encoding/json decodes after an independent array-to-field translation.', 'DESIGN.md §4 C15'),
+ 'C16': table('C16', 'HandlerAdapt', 'adaptfam', 'handler.Positional/NewPos, Args, Obj: arities 1..6 x params shapes (exact / short / long / empty arrays, null or wrong element at every position, objects with all / some / unknown names, wrong types), name-list lengths, Args lengths and nil slots, Obj key sets, from the tables of spec/HandlerAdapt.tla; called with exactly the decoded values or InvalidParams without a call; untouched targets stay untouched.', 'DESIGN.md §4 C16'),
+ 'C19': dict(technique='TLA+ reference function (spec/QueryTyping.tla) table replay into ParseQuery/ParseBasic/Getter + TLA+ model checking of spec/HttpChan.tla (with a must-fail F11 variant) and replay of TLC-simulated behaviours into a real jhttp.Channel with state comparison + transport-equivalence differential run',
+        category='model_checking',
+        text='(a) Every query value up to the bound is typed by the documented rules in spec/QueryTyping.tla (MUST-number, MUST-NOT-number, constants, quoted strings, base64, literal; open cases as sets) and replayed into ParseQuery, ParseBasic and a real Getter: never a panic, non-empty trimmed method, marshalable params, 200/400/404/500 mapping with JSON bodies. '
+             '(c) spec/HttpChan.tla (send goroutines, rendezvous with Recv, Close drain) is checked exhaustively by TLC; simulated behaviours are replayed into a real jhttp.Channel inside a synctest bubble with gated HTTP round trips and counted response bodies, comparing the projected state after every action and the resource invariants at the end. '
+             '(b) one workload over jhttp.Channel+Bridge and over a direct connection must give identical results.',
+        ref='DESIGN.md §4 C19', note=TABLE_NOTE),
  'C17': table('C17', 'Dispatch', 'dispfam', 'Method dispatch: Target(mux, builtin, name) of spec/Dispatch.tla (Map = whole name, ServiceMap = first-dot split, reserved rpc.* gate before the assigner) evaluated by TLC for every name up to the bound x mux shapes x DisableBuiltin; each name called and notified on a real Server built from the exported mux description; compared: handler identity, what handler and assigner saw (InboundRequest, ServerFromContext), answers, Names() sorted, rpc.serverInfo.', 'DESIGN.md §4 C17'),
  'C11': table('C11', 'Framing', 'framefam', 'Framing round trip under any fragmentation: record class sequences (legality per framing from the spec) are sent with the real Send and received through a chunk-controlled reader under all cut sets (short streams), 1-byte reads, boundary cuts, random cuts and data-together-with-EOF; Recv must return exactly the records and then io.EOF; a record containing the split byte must be refused with nothing written.', 'DESIGN.md §4 C11'),
  'C12': table('C12', 'Framing', 'framefam', 'Framing robustness: the symbol-level reference decoders of spec/Framing.tla (Split and the Header family under strict / optional / empty mime type) are evaluated by TLC over every token stream up to the bound; each stream is decoded by the real Recv under many fragmentations and the outcome sequence (records byte for byte, errors, keeps-failing-after-exhaustion) compared; absurd Content-Length values and seeded byte mutations are checked for no-crash / no-short-record / no-fabrication.', 'DESIGN.md §4 C12'),
